@@ -322,7 +322,8 @@ fn run_server_histories(cx: &mut CaseCx, case: &Value) {
   let base = pp::Server::new(tags.to_vec()).expect("server");
   let other = {
     // a smaller key state of another lineage, to import
-    let mut s = pp::Server::new(vec![0, 2]).expect("server");
+    // (it also publishes tag 77, which the importing server never had)
+    let mut s = pp::Server::new(vec![0, 2, 77]).expect("server");
     let _ = s.puncture(0);
     bincode::serialize(&s.get_private_key()).expect("export")
   };
@@ -342,6 +343,8 @@ fn run_server_histories(cx: &mut CaseCx, case: &Value) {
   }
   alpha.push(A::V(2));
   alpha.push(A::V(128));
+  // a tag that only the imported foreign state publishes
+  alpha.push(A::V(77));
   alpha.push(A::Import);
   alpha.push(A::ImportSelf);
   let first = case["first"].as_u64().unwrap() as usize;
@@ -667,8 +670,8 @@ pub fn spec() -> PropSpec {
       },
       Check {
         name: "server-histories",
-        rule: "server with tags {0,2,128,130,255}: EVERY history of length <= 4 (thorough 5) over {puncture(t), eval(t), verifiable eval(2|128), import of a smaller foreign key state, re-import of the initial state}: no step may panic (evaluation of a blinded point is a listed entry point; its behaviour depends on the key's history)",
-        gen: |tier| (0..14u64).map(|f| json!({"first": f, "depth": if tier.thorough() { 5 } else { 4 }})).collect(),
+        rule: "server with tags {0,2,128,130,255}: EVERY history of length <= 4 (thorough 5) over {puncture(t), eval(t), verifiable eval(2|128|77), import of a foreign key state with fewer tags plus one tag (77) the server never had, re-import of the initial state}: no step may panic (evaluation of a blinded point is a listed entry point; its behaviour depends on the key's history)",
+        gen: |tier| (0..15u64).map(|f| json!({"first": f, "depth": if tier.thorough() { 5 } else { 4 }})).collect(),
         run: run_server_histories,
         min_counts: &[("histories", 10_000)],
       },
